@@ -11,13 +11,15 @@
 
    (Ok excludes Panic and OutOfFuel), plus the abstract k-means model and the
    exact validity checker.  This file only collects: every theorem is closed
-   by [exact] of a lemma of Proofs/C02Collect.v (projections of the theorems of
-   the algorithm's own development) or of Proofs/C02Proofs.v.  Partial results
+   by [exact] of a lemma of Proofs/C02Collect.v -- which derives it from the
+   PROPERTY THEOREMS of the algorithm's own Properties/Cxx.v, by name -- or of
+   Proofs/C02Proofs.v.  Partial results
    are named [..._partial] and say what is missing.  [list_maxN p] = the
    largest id of [p] (0 for the empty array). *)
 From Coupe Require Import Lib.Prelude Lib.SFloat Lib.Report Model.KMeansAbs Run.RunC02 Proofs.C02Proofs.
 From Coupe Require Proofs.C02Collect.
-From Coupe Require Lib.Graph Model.Vn Model.Fm Proofs.FmProofs Proofs.FmNoPanic Model.Kl Model.ArcSwap Proofs.ArcSwapTerm.
+From Coupe Require Properties.C07 Properties.C15.
+From Coupe Require Lib.Graph Model.Vn Model.Fm Proofs.FmProofs Model.Kl Model.ArcSwap Proofs.ArcSwapTerm.
 Import C02Collect.
 
 Theorem C02_checker : forall bound n p,
@@ -83,31 +85,41 @@ Theorem C02_fm_execution_exists : forall cfg g ws p0 cap,
   FmProofs.fm_contract g ws p0 -> length ws = length p0 -> Fm.two_way p0 ->
   Fm.fm_cap (Fm.fm_max_imb cfg) (Fm.load ws p0 0, Fm.load ws p0 1) = Some cap ->
   exists orc p mpp rpp, Fm.fm cfg (Fm.fm_fuel g p0) g ws p0 orc = Ok (Fm.FmOk p mpp rpp).
-Proof. exact FmNoPanic.fm_execution_exists. Qed.
+Proof. exact C07.C07_execution_exists. Qed.
 Print Assumptions C02_fm_execution_exists.
 
 (* ------------------------------------------------------------ KernighanLin *)
 
-(* [KlC.kl_impl] = Kl.kl at the three flags read from kernighan_lin.rs, as in
-   Properties/C15.v.
+(* [C15.kl_impl sp] = Kl.kl at the three flags read from kernighan_lin.rs;
+   [sp] says which edge_cut the topology type has (true: CsMatView's override,
+   which needs rows sorted by column; false: the trait's own method -- Grid,
+   adjacency lists in any order).
 
    PARTIAL with respect to the property's quantifier ("all valid initial
    partitions"): proved for inputs with AT MOST TWO part ids in use (two
    non-empty parts, one part, or the empty input).  Then, for a square matrix
-   with in-range columns and non-negative edge weights, one weight per vertex,
-   every value of the three limits and every fuel >= kl_fuel (initial cut + 2
-   passes): Ok, same length, every id labels as many vertices as before --
-   hence only ids of the input occur, none above its maximum; for a valid
-   two-part input the result stays within {0,1}.
+   with in-range columns and non-negative edge weights, one weight per vertex
+   and every value of the three limits: at the fuel kl_fuel (initial cut + 2
+   passes) the model returns Ok; for every larger fuel it neither panics nor
+   runs out of fuel; and every Ok result has the same length, every id
+   labelling as many vertices as before -- hence only ids of the input occur,
+   none above its maximum; for a valid two-part input the result stays within
+   {0,1}.
    What is missing: with three or more ids in use the code reaches
    `unimplemented!()` (open known finding kl-not-two-parts; the model panics
    there too), so C02 does NOT hold of KernighanLin on those inputs. *)
-Theorem C02_kl_two_parts_partial : forall mp mf mb fuel g wlen p,
-  Graph.wf_graph g (length p) -> Graph.nonneg_edges g -> (length p <= wlen)%nat ->
-  (length (Kl.uniq [] p) <= 2)%nat -> (Kl.kl_fuel g p <= fuel)%nat ->
-  exists q, KlC.kl_impl mp mf mb fuel g wlen p = Ok q
-    /\ length q = length p /\ Kl.same_sizes p q
-    /\ Forall (fun x => In x p) q /\ Forall (fun x => (x <= list_maxN p)%N) q.
+Theorem C02_kl_two_parts_partial : forall sp mp mf mb g wlen p,
+  Graph.wf_graph g (length p) -> (sp = true -> Graph.rows_sorted g) -> Graph.nonneg_edges g ->
+  (length p <= wlen)%nat -> (length (Kl.uniq [] p) <= 2)%nat ->
+  (exists q, C15.kl_impl sp mp mf mb (Kl.kl_fuel sp g p) g wlen p = Ok q
+     /\ length q = length p /\ Kl.same_sizes p q
+     /\ Forall (fun x => In x p) q /\ Forall (fun x => (x <= list_maxN p)%N) q)
+  /\ forall fuel, (Kl.kl_fuel sp g p <= fuel)%nat ->
+       (forall s, C15.kl_impl sp mp mf mb fuel g wlen p <> Panic s)
+       /\ C15.kl_impl sp mp mf mb fuel g wlen p <> OutOfFuel
+       /\ (forall q, C15.kl_impl sp mp mf mb fuel g wlen p = Ok q ->
+             length q = length p /\ Kl.same_sizes p q
+             /\ Forall (fun x => In x p) q /\ Forall (fun x => (x <= list_maxN p)%N) q).
 Proof. exact KlC.kl_collect. Qed.
 Print Assumptions C02_kl_two_parts_partial.
 
@@ -143,8 +155,10 @@ Print Assumptions C02_arcswap_ids.
    state can be run to completion; ids and length as above.
    What is missing / assumed: sequential consistency of the atomics (the
    interleaving semantics itself); the share the code computes in f64 is
-   covered only where it equals the exact quotient (headroom_checked, C05);
-   integer i64 weights (unsigned weights: open known finding of C05). *)
+   covered only where it equals the exact quotient: C05 proves that for
+   headrooms in [-512, 512] and 1..4 threads (C05_f64_share_exact_small) and
+   checks it per run beyond (headroom_checked) -- it is not a theorem for all
+   operands; integer i64 weights (unsigned weights: open known finding of C05). *)
 Theorem C02_arcswap_partial : forall g vw p0 T cap,
   ArcSwap.graph_ok g -> length vw = length g -> length p0 = length g -> (1 <= length g)%nat -> (1 <= T)%nat ->
   let cf := ArcSwap.config_of ArcSwap.headroom_quot g vw p0 T cap in
@@ -192,5 +206,5 @@ Definition ex_path4 : Graph.graph :=
   [[(1%nat, 1)]; [(0%nat, 1); (2%nat, 1)]; [(1%nat, 1); (3%nat, 1)]; [(2%nat, 1)]]%Z.
 Example C02_nonvacuous_kl :
   Graph.wf_graphb ex_path4 4 = true /\ Kl.uniq [] [0;1;0;1]%N = [0;1]%N
-  /\ KlC.kl_impl None None 1%N (Kl.kl_fuel ex_path4 [0;1;0;1]%N) ex_path4 4 [0;1;0;1]%N = Ok [0;0;1;1]%N.
+  /\ C15.kl_impl true None None 1%N (Kl.kl_fuel true ex_path4 [0;1;0;1]%N) ex_path4 4 [0;1;0;1]%N = Ok [0;0;1;1]%N.
 Proof. vm_compute. auto. Qed.
